@@ -48,6 +48,26 @@ impl io::Read for Scripted {
 	}
 }
 
+/// a reader that brings its own `read_exact`, written the obvious way: `Interrupted` escapes from it like any other error, also after a
+/// part of the buffer has been delivered (std's provided method would retry)
+struct Naive(Scripted);
+
+impl io::Read for Naive {
+	fn read(&mut self, buf: &mut [u8]) -> io::Result<usize> {
+		self.0.read(buf)
+	}
+	fn read_exact(&mut self, mut buf: &mut [u8]) -> io::Result<()> {
+		while !buf.is_empty() {
+			let n = self.0.read(buf)?;
+			if n == 0 {
+				return Err(io::Error::new(io::ErrorKind::UnexpectedEof, "failed to fill whole buffer"));
+			}
+			buf = &mut buf[n..];
+		}
+		Ok(())
+	}
+}
+
 fn op_on<G: Rng + ?Sized>(r: &mut Random<G>, op: &str) -> R<String> {
 	let res = catch_unwind(AssertUnwindSafe(|| -> R<String> {
 		Ok(match op {
@@ -91,10 +111,18 @@ pub fn read(req: &Req) -> R<String> {
 		});
 	}
 	let errs = std::rc::Rc::new(std::cell::Cell::new(0usize));
-	let mut r = Read::new(Scripted { data, pos: 0, script, next: 0, errs: errs.clone() });
+	let rd = Scripted { data, pos: 0, script, next: 0, errs: errs.clone() };
 	let mut out = Vec::new();
-	for op in req.strs("ops") {
-		out.push(op_on(&mut r, op)?);
+	if req.get("rx").ok() == Some("naive") {
+		let mut r = Read::new(Naive(rd));
+		for op in req.strs("ops") {
+			out.push(op_on(&mut r, op)?);
+		}
+	} else {
+		let mut r = Read::new(rd);
+		for op in req.strs("ops") {
+			out.push(op_on(&mut r, op)?);
+		}
 	}
 	// for the oracle only (stripped before the comparison with the model): how many I/O errors the reader reported
 	out.push(format!("errs={}", errs.get()));
